@@ -205,6 +205,19 @@ class EvolveAppTask(BaseEvolutionTask):
             applied_migrations = \
                 migration_executor.loader.extra_applied_migrations
 
+            if applied_migrations and full_migration_plan:
+                # Initial migrations that are about to be applied in this
+                # run are also tracked there (so that the graph can be
+                # built). Those will be recorded by the migration executor
+                # when they're applied. Recording them here as well would
+                # leave two rows for them.
+                planned_migrations = MigrationList()
+                planned_migrations.add_migration_targets([
+                    (migration.app_label, migration.name)
+                    for migration, backwards in full_migration_plan
+                ])
+                applied_migrations = applied_migrations - planned_migrations
+
             if applied_migrations:
                 record_applied_migrations(connection=evolver.connection,
                                           migrations=applied_migrations)
